@@ -122,6 +122,7 @@ pub fn scenarios(quick: bool) -> Vec<Scenario> {
     // further users of the handle protocol (run_with_image from inside another frame's render)
     add("lfframe-2same", "vardct-lfframe-40x24", vec![0, 0], None);
     add("patches-2same", "rgba-24x20-patches", vec![0, 0], None);
+    add("patched-layers-2same", "rgba-24x20-patches-layer-under-patched-keyframe", vec![0, 0], None);
     if !quick {
         add("lfframe-3same", "vardct-lfframe-40x24", vec![0, 0, 0], None);
         add("patches-3same", "rgba-24x20-patches", vec![0, 0, 0], None);
@@ -163,6 +164,13 @@ fn tsan_child(rest: &[String]) -> ! {
         })
         .collect();
     let r: Vec<bool> = hs.into_iter().map(|h| h.join().unwrap_or(false)).collect();
+    let in_job = jxl_render::verif_sync::take_requests_in_pool_jobs(false);
+    if !in_job.is_empty() {
+        let mut v = in_job;
+        v.sort();
+        v.dedup();
+        eprintln!("VERIF-NOTE: handle-wait-in-pool-job the render of frame(s) {v:?} was requested (and would be waited for) from inside a pool job");
+    }
     println!("{r:?}");
     std::process::exit(0)
 }
@@ -298,7 +306,7 @@ pub fn main(args: &crate::Args) {
 fn replay(path: &str) -> ! {
     let s = std::fs::read_to_string(path).unwrap_or_else(|e| crate::explore::machinery_failure(&format!("{path}: {e}")));
     let v: serde_json::Value = serde_json::from_str(&s).unwrap();
-    if v["family"] == "tsan" {
+    if v["family"] == "tsan" || v["family"] == "tsan-hang" {
         crate::tsan::replay("C20", path, &v);
     }
     let sj = &v["scenario"];
